@@ -494,6 +494,12 @@ class Exec:
                     self.logw(('s', p))
                     self.frame_scalar(st, p)
                 return
+        if isinstance(l, ObjRef) and l.name.startswith('*') and isinstance(v, models.Plan):
+            # FFTW plan handle member: remember which transform on which buffers it stands for
+            st.scal[l.name[1:]] = v
+            self.logw(('s', l.name[1:]))
+            self.frame_scalar(st, l.name[1:])
+            return
         if isinstance(l, PtrV) and l.region is None and isinstance(v, PtrV) and v.region is None:
             return      # member of type std::nullptr_t (the OpenCL handle in this build): assigning nullptr changes nothing
         raise ExtractionError(f'store to {l} of {v}')
@@ -523,6 +529,8 @@ class Exec:
             return
         conds = []
         for t in self.assigns:
+            if t[0] == 'r' and t[1].endswith('*') and l.region.startswith(t[1][:-1]):
+                return
             if t[0] == 'r' and t[1] == l.region:
                 if len(t) == 2 or t[2] is None:
                     return
@@ -542,6 +550,8 @@ class Exec:
             return
         conds = []
         for t in self.assigns:
+            if t[0] == 'r' and t[1].endswith('*') and region.startswith(t[1][:-1]):
+                return
             if t[0] == 'r' and t[1] == region:
                 if len(t) == 2 or t[2] is None:
                     return
@@ -1221,6 +1231,9 @@ class Exec:
             # temporary / local object of a class whose constructor is under contract (or bound to an event)
             cn = strip_quals(ct.name)
             use = self.calls.get(f'ctor:{cn}/{len(args)}') or self.calls.get(f'ctor:{cn}')
+            if use is not None and len(args) == 1 and strip_quals(parse_type(args[0]['type']).name) == cn:
+                # copy / move construction from an object of the same class (usually an elided temporary)
+                return self.ev_obj(args[0], st) if args[0].get('valueCategory') in ('lvalue', 'xvalue') else self.ev(args[0], st)
             if use is not None:
                 self.tmpcount = getattr(self, 'tmpcount', 0) + 1
                 short = cn.split('::')[-1].split('<')[0]
